@@ -1402,3 +1402,55 @@ Qed.
 Example minimal_no_cut_example :
   minimal_no_cut ex_m [(1, 1, 3); (3, 2, 3)] /\ ~ minimal_no_cut ex_m [(1, 1, 3); (8, 8, 3)].
 Proof. unfold minimal_no_cut, no_buffer_cut_minimal. vm_compute. split; [reflexivity|intros H; discriminate H]. Qed.
+
+(* ---------------------------------------------------------------- upstream faults *)
+
+Lemma existsb_orb {A} (f g : A -> bool) (l : list A) :
+  existsb (fun x => f x || g x) l = existsb f l || existsb g l.
+Proof.
+  induction l as [|a l IH]; [reflexivity|]. cbn [existsb]. rewrite IH.
+  destruct (f a), (g a), (existsb f l), (existsb g l); reflexivity.
+Qed.
+
+(* meta tile and single tile strategies: a creation step one of whose upstream responses must not be cached, or ends in
+   the middle of the image data, stores nothing *)
+Lemma faulted_step_stores_nothing g bad cut plan : forall steps failed,
+  run_plan_faults g false bad cut plan = (steps, failed) ->
+  forall st, In st steps ->
+    existsb (fun rq => bbox_mem (fst rq) bad || bbox_mem (fst rq) cut) (fst st) = true -> snd st = [].
+Proof.
+  induction plan as [|st0 plan IH]; intros steps failed Hrun st Hin Hf; cbn [run_plan_faults negb andb] in Hrun.
+  - injection Hrun as <- _. destruct Hin.
+  - destruct (existsb (fun rq => bbox_mem (fst rq) cut) (fst st0)) eqn:Ecut.
+    + injection Hrun as <- _. destruct Hin as [<-|[]]. reflexivity.
+    + destruct (run_plan_faults g false bad cut plan) as [r f] eqn:Er. injection Hrun as <- _.
+      destruct Hin as [<-|Hin]; [|exact (IH r f eq_refl st Hin Hf)].
+      unfold step_with_faults in *.
+      destruct (existsb (fun rq => bbox_mem (fst rq) bad) (fst st0)) eqn:Ebad; [reflexivity|].
+      rewrite existsb_orb, Ebad, Ecut in Hf. discriminate Hf.
+Qed.
+
+(* bulk strategy: a tile whose own response must not be cached is not among the stored tiles *)
+Lemma bulk_uncacheable_not_stored g bad st c :
+  In c (snd (step_with_faults g true bad st)) -> bbox_mem (fst (tile_request g c)) bad = false.
+Proof.
+  unfold step_with_faults. cbn [snd]. intros H. apply filter_In in H. destruct H as (_ & H).
+  destruct (bbox_mem (fst (tile_request g c)) bad); [discriminate H|reflexivity].
+Qed.
+
+(* a response that ends in the middle of the image data makes the request fail *)
+Lemma cut_response_fails g bad cut (st : step) plan :
+  existsb (fun rq : bbox * (Z * Z) => bbox_mem (fst rq) cut) (fst st) = true ->
+  run_plan_faults g false bad cut (st :: plan) = ([(fst st, [])], true).
+Proof. intros H. cbn [run_plan_faults negb andb]. rewrite H. reflexivity. Qed.
+
+Example faults_example :
+  let m := mkMG (mkGrid 0 0 320 160 8 8 [10] false 115 100 4 1) 2 2 0 in
+  (* bulk: the response for tile (1,1,0) must not be cached *)
+  request_with_faults m true false true [] [(80, 80, 160, 160)] [] [(0, 0, 0)] =
+    Some ([((0, 80, 80, 160), (8, 8)); ((80, 80, 160, 160), (8, 8)); ((0, 0, 80, 80), (8, 8)); ((80, 0, 160, 80), (8, 8))],
+          [(0, 1, 0); (0, 0, 0); (1, 0, 0)], false) /\
+  (* meta tiles: the second response is cut off *)
+  request_with_faults m true false false [] [] [(160, 0, 320, 160)] [(0, 0, 0); (2, 1, 0)] =
+    Some ([((0, 0, 160, 160), (16, 16)); ((160, 0, 320, 160), (16, 16))], [(0, 1, 0); (1, 1, 0); (0, 0, 0); (1, 0, 0)], true).
+Proof. vm_compute. split; reflexivity. Qed.
